@@ -18,16 +18,17 @@ import os
 import sys
 from typing import Any, Callable, Dict, Optional
 
-if "/repo/src" not in sys.path:
-    sys.path.insert(0, "/repo/src")
+_REPO_SRC = os.environ.get("VERIF_REPO", "/repo") + "/src"
+if _REPO_SRC not in sys.path:
+    sys.path.insert(0, _REPO_SRC)
 logging.disable(logging.CRITICAL)
 
 import ahbicht.content_evaluation  # noqa: E402  (must be first: circular imports otherwise)
 import ahbicht  # noqa: E402
 
 _src = os.path.realpath(os.path.dirname(ahbicht.__file__))
-if not _src.startswith(os.path.realpath(os.environ.get("VERIF_REPO_SRC", "/repo/src"))):
-    raise RuntimeError(f"ahbicht is imported from {_src}, not from the working tree under /repo/src")
+if not _src.startswith(os.path.realpath(_REPO_SRC)):
+    raise RuntimeError(f"ahbicht is imported from {_src}, not from the working tree under {_REPO_SRC}")
 
 import inject  # noqa: E402
 from efoli import EdifactFormat, EdifactFormatVersion  # noqa: E402
